@@ -1,0 +1,166 @@
+//go:build verif
+// +build verif
+
+package linker
+
+import (
+	"hash"
+
+	"github.com/evanw/esbuild/internal/config"
+	"github.com/evanw/esbuild/internal/fs"
+	"github.com/evanw/esbuild/internal/graph"
+	"github.com/evanw/esbuild/internal/helpers"
+	"github.com/evanw/esbuild/internal/logger"
+	"github.com/evanw/esbuild/internal/sourcemap"
+)
+
+// Thin wrappers (no logic) used by the verification harness in /verif
+// (properties C18 and C19). They only copy plain data into the linker's
+// unexported structures and forward to the unexported functions.
+
+type VerifPiece struct {
+	Data  []byte
+	Index uint32
+	Kind  uint8 // 0 none, 1 asset, 2 chunk
+}
+
+type VerifPart struct {
+	SourceIndex uint32
+	Begin       uint32
+	End         uint32
+}
+
+type VerifChunk struct {
+	UniqueKey    string
+	FinalRelPath string
+	Imports      []uint32
+	HasPieces    bool // false: the chunk keeps its joiner (JoinerBytes)
+	Pieces       []VerifPiece
+	JoinerBytes  []byte
+	IsoHash      []byte // returned by waitForIsolatedHash
+	IsCSS        bool
+	Parts        []VerifPart
+	Template     []config.PathTemplate
+	SMPrefix     []byte
+	SMMappings   []byte
+	SMSuffix     []byte
+}
+
+type VerifFile struct {
+	Namespace         string
+	KeyText           string
+	PrettyRel         string
+	AdditionalAbsPath string // "" when the file has no additional output file
+	UniqueKey         string
+}
+
+type VerifLinker struct{ c *linkerContext }
+
+func verifToOutput(hasPieces bool, pieces []VerifPiece, joinerBytes []byte) intermediateOutput {
+	var out intermediateOutput
+	if hasPieces {
+		out.pieces = make([]outputPiece, len(pieces))
+		for i, p := range pieces {
+			out.pieces[i] = outputPiece{data: p.Data, index: p.Index, kind: outputPieceIndexKind(p.Kind)}
+		}
+	} else {
+		out.joiner.AddBytes(joinerBytes)
+	}
+	return out
+}
+
+func verifFromOutput(out intermediateOutput) (bool, []VerifPiece) {
+	if out.pieces == nil {
+		return false, nil
+	}
+	pieces := make([]VerifPiece, len(out.pieces))
+	for i, p := range out.pieces {
+		pieces[i] = VerifPiece{Data: p.data, Index: p.index, Kind: uint8(p.kind)}
+	}
+	return true, pieces
+}
+
+func VerifNewLinker(fileSystem fs.FS, absOutputDir string, publicPath string, uniqueKeyPrefix string, files []VerifFile, chunks []VerifChunk) *VerifLinker {
+	c := &linkerContext{
+		options:              &config.Options{AbsOutputDir: absOutputDir, PublicPath: publicPath},
+		log:                  logger.NewDeferLog(logger.DeferLogAll, nil),
+		fs:                   fileSystem,
+		uniqueKeyPrefix:      uniqueKeyPrefix,
+		uniqueKeyPrefixBytes: []byte(uniqueKeyPrefix),
+	}
+	c.graph.Files = make([]graph.LinkerFile, len(files))
+	for i, f := range files {
+		lf := &c.graph.Files[i]
+		lf.InputFile.Source.KeyPath = logger.Path{Text: f.KeyText, Namespace: f.Namespace}
+		lf.InputFile.Source.PrettyPaths.Rel = f.PrettyRel
+		lf.InputFile.UniqueKeyForAdditionalFile = f.UniqueKey
+		if f.AdditionalAbsPath != "" {
+			lf.InputFile.AdditionalFiles = []graph.OutputFile{{AbsPath: f.AdditionalAbsPath}}
+		}
+	}
+	c.chunks = make([]chunkInfo, len(chunks))
+	for i, ch := range chunks {
+		ci := &c.chunks[i]
+		ci.uniqueKey = ch.UniqueKey
+		ci.finalRelPath = ch.FinalRelPath
+		ci.finalTemplate = ch.Template
+		for _, imp := range ch.Imports {
+			ci.crossChunkImports = append(ci.crossChunkImports, chunkImport{chunkIndex: imp})
+		}
+		ci.intermediateOutput = verifToOutput(ch.HasPieces, ch.Pieces, ch.JoinerBytes)
+		iso := ch.IsoHash
+		ci.waitForIsolatedHash = func() []byte { return iso }
+		ci.outputSourceMap = sourcemap.SourceMapPieces{Prefix: ch.SMPrefix, Mappings: ch.SMMappings, Suffix: ch.SMSuffix}
+		if ch.IsCSS {
+			ci.chunkRepr = &chunkReprCSS{}
+		} else {
+			repr := &chunkReprJS{}
+			for _, p := range ch.Parts {
+				repr.partsInChunkInOrder = append(repr.partsInChunkInOrder, partRange{sourceIndex: p.SourceIndex, partIndexBegin: p.Begin, partIndexEnd: p.End})
+			}
+			ci.chunkRepr = repr
+		}
+	}
+	return &VerifLinker{c: c}
+}
+
+func (v *VerifLinker) BreakOutputIntoPieces(output []byte) (bool, []VerifPiece) {
+	return verifFromOutput(v.c.breakOutputIntoPieces(output))
+}
+
+func (v *VerifLinker) BreakJoinerIntoPieces(output []byte) (bool, []VerifPiece) {
+	var j helpers.Joiner
+	j.AddBytes(output)
+	return verifFromOutput(v.c.breakJoinerIntoPieces(j))
+}
+
+func (v *VerifLinker) SubstituteFinalPaths(hasPieces bool, pieces []VerifPiece, joinerBytes []byte, fromRelDir string) ([]byte, []sourcemap.SourceMapShift) {
+	j, shifts := v.c.substituteFinalPaths(verifToOutput(hasPieces, pieces, joinerBytes), func(finalRelPathForImport string) string {
+		return v.c.pathBetweenChunks(fromRelDir, finalRelPathForImport)
+	})
+	return j.Done(), shifts
+}
+
+func (v *VerifLinker) AccurateFinalByteCount(hasPieces bool, pieces []VerifPiece, joinerBytes []byte, chunkFinalRelDir string) int {
+	return v.c.accurateFinalByteCount(verifToOutput(hasPieces, pieces, joinerBytes), chunkFinalRelDir)
+}
+
+func (v *VerifLinker) PathBetweenChunks(fromRelDir string, toRelPath string) string {
+	return v.c.pathBetweenChunks(fromRelDir, toRelPath)
+}
+
+func (v *VerifLinker) AppendIsolatedHashesForImportedChunks(h hash.Hash, chunkIndex uint32, visited []uint32, visitedKey uint32) {
+	v.c.appendIsolatedHashesForImportedChunks(h, chunkIndex, visited, visitedKey)
+}
+
+func (v *VerifLinker) GenerateIsolatedHash(chunkIndex uint32) []byte {
+	channel := make(chan []byte, 1)
+	v.c.generateIsolatedHash(&v.c.chunks[chunkIndex], channel)
+	return <-channel
+}
+
+func VerifJoinWithPublicPath(publicPath string, relPath string) string {
+	return joinWithPublicPath(publicPath, relPath)
+}
+
+func VerifHashWriteLengthPrefixed(h hash.Hash, bytes []byte) { hashWriteLengthPrefixed(h, bytes) }
